@@ -167,12 +167,32 @@ def run(ctx):
         b = terms_j[(Y, kk)][0] if kk < 24 else terms_j[(Y + 1, kk - 24)][0]
         return list(range(a, b))
     table(ctx, 'PETE-SCENARIO', 'SixtyCycleMonth::get_days:julian-era', range(12), smdays_j, smdays_j_orc, 'the same with the Jie days ~12 days earlier in the civil month (Julian era): the Jie day itself belongs to the new month', lambda k: u'%s月' % G.BRANCHES[(2 + k) % 12], fn_site(p, 'SixtyCycleMonth::get_days'))
+    # the day table used for calendar making may differ by a day from the day of the precise instant (it does for some terms before 1928):
+    # a sexagenary month starts on the day of the precise Jie instant
+    cshift = {}
+    for k_ in range(12):
+        key_ = (Y, 3 + 2 * k_) if 3 + 2 * k_ < 24 else (Y + 1, 3 + 2 * k_ - 24)
+        cshift[key_] = (-1, 1, 0)[k_ % 3]
+
+    def smdays_c(k):
+        cmc = CalModel(I, terms, lmonths, cursory_shift=cshift)
+        m = I.call('SixtyCycleMonth::from_index', [Y, k])
+        fd = cmc.n_of(t.m(t.m(m, 'get_first_day'), 'get_solar_day'))
+        return ([cmc.n_of(t.m(d, 'get_solar_day')) for d in t.m(m, 'get_days')], fd)
+    table(ctx, 'PETE-SCENARIO', 'SixtyCycleMonth::get_days:day-table-off-by-one', range(12), smdays_c, lambda k: (smdays_orc(k), smdays_orc(k)[0]),
+          'with the calendar-making day table a day off the precise instant for some Jie (as before 1928), the month still starts on the day of the precise Jie instant',
+          lambda k: u'%s月' % G.BRANCHES[(2 + k) % 12], fn_site(p, 'SixtyCycleMonth::get_first_day'))
     CalModel(I, terms, lmonths)
     table(ctx, 'PETE-SCENARIO', 'SixtyCycleMonth::get_days', range(12), smdays, smdays_orc, 'a sexagenary month lists exactly the days from its Jie day to the day before the next Jie', lambda k: u'%s月' % G.BRANCHES[(2 + k) % 12], fn_site(p, 'SixtyCycleMonth::get_days'))
 
     # the one place where a REAL lunar month's length is readable from a literal table alone: the fitted new-moon segments (shared with C03)
     from rules import c03 as _c03
     _c03.fit_rule(ctx)
+
+    # ---- the two ends of the supported range (first days of 0001, last days of 9999, last lunar year)
+    from rules import range_end as _re
+    _Ie = ctx.interp(fuel=50000000)
+    _re.c13_edge(ctx, _Ie, T(_Ie))
 
     ctx.assumptions.append('civil date <-> day number replaced by the calendar oracle (C01); lunar months and term days are scenario inputs (C02/C03, C05/C06)')
     ctx.not_decided.append('real lunar years / months as correct lists (their lengths are numeric: C03); day-of-year agreement is decided in C01')
